@@ -150,6 +150,8 @@ def run_shard(spec, acc):
     else:
         rnd = random.Random(spec["seed"])
         for i in range(spec["n"]):
+            if i % 25 == 0:
+                long_lived_process(rnd, acc)
             if rnd.random() < 0.15:
                 kind = rnd.choice(["arch", "arch", "rule"])
                 k = rnd.randint(2, 3)
@@ -201,6 +203,54 @@ def run_shard(spec, acc):
             acc.count("random_sequences")
 
 
+def long_lived_process(rnd, acc, forced=None):
+    """Architecture definitions in a process that defines many of them (one per test module of a big suite, a plugin that
+    keeps definitions around): (a) a definition is started, any number of OTHER architectures are defined completely, then
+    the first one is continued - with a module it already has (to be rejected) and with a new one (to be accepted); (b)
+    several definitions are created up front and then written and dropped one after the other, so that the lists of a
+    later one live where the lists of a dead one were.  Every call is judged by the trace monitor against the history of
+    the object it was made on."""
+    import gc
+
+    from pytestarch import LayeredArchitecture
+
+    plan_ = forced["plan"] if forced else {"others": rnd.choice([0, 3, 31, 32, 33, 40, 70, 140]), "keep": rnd.random() < 0.5, "string": rnd.random() < 0.5, "upfront": rnd.randint(2, 4), "layers": rnd.randint(1, 3), "collect": rnd.random() < 0.5, "as_list": rnd.random() < 0.7}
+    HUB.case = {"kind": "long-lived", "plan": plan_}
+    first = LayeredArchitecture().layer("A").containing_modules(["mod_m", "mod_n"])
+    kept = []
+    for k in range(plan_["others"]):
+        o = LayeredArchitecture().layer("A").containing_modules([f"p{k}.m", "mod_m"] if k % 2 else f"p{k}.m").layer("B").containing_modules([f"p{k}.n"])
+        if plan_["keep"]:
+            kept.append(o)
+        acc.evaluated(4)
+    for arg in ("mod_m" if plan_["string"] else ["mod_q", "mod_m"], "mod_q" if plan_["string"] else ["mod_q"]):
+        try:
+            first.layer("B" if arg in ("mod_m", ["mod_q", "mod_m"]) else "C")
+            first.containing_modules(arg)
+        except Exception:  # noqa: BLE001  (judged by the trace monitor)
+            pass
+        acc.evaluated(2)
+    acc.count("definitions_continued_after_other_architectures_were_defined")
+    del first, kept
+    # (b)
+    archs = [LayeredArchitecture() for _ in range(plan_["upfront"])]
+    for j in range(len(archs)):
+        a = archs[j]
+        try:
+            for i in range(plan_["layers"]):
+                a.layer(f"L{i}")
+                a.containing_modules([f"q{j}.m{i}"] if plan_["as_list"] else f"q{j}.m{i}")
+            a.layer("one_more")
+            a.containing_modules(rnd.choice([[f"q{j}.m0"], f"q{j}.m0"]) if forced is None else [f"q{j}.m0"])  # already in L0: to be rejected
+        except Exception:  # noqa: BLE001
+            pass
+        acc.evaluated(2 * plan_["layers"] + 2)
+        archs[j] = a = None
+        if plan_["collect"]:
+            gc.collect()
+    acc.count("definitions_created_up_front_and_written_one_after_the_other", plan_["upfront"])
+
+
 def interleaved_builders(seqs, schedule, kind, acc):
     """Two or three builders of the same class executing their own call sequences with the calls interleaved (continuing
     after rejected calls): the trace monitor judges every call against the history of the object it was made on."""
@@ -231,6 +281,8 @@ def interleaved_builders(seqs, schedule, kind, acc):
 
 
 def replay(case, acc):
+    if case["kind"] == "long-lived":
+        return long_lived_process(random.Random(0), acc, forced=case)
     if case["kind"] == "interleaved":
         seqs = [[tuple(x) if not isinstance(x[1], list) else (x[0], x[1]) for x in q] for q in case["seqs"]]
         return interleaved_builders(seqs, case["schedule"], case["of"], acc)
@@ -253,7 +305,7 @@ def replay(case, acc):
 
 def floors(acc, tier):
     why = []
-    for c, n in (("c16_arch_violating_calls", 1000), ("c16_rule_violating_calls", 100), ("c16_accepted_definitions_checked", 1000), ("sequences", 5000), ("builders_driven_interleaved", 100)):
+    for c, n in (("c16_arch_violating_calls", 1000), ("c16_rule_violating_calls", 100), ("c16_accepted_definitions_checked", 1000), ("sequences", 5000), ("builders_driven_interleaved", 100), ("definitions_continued_after_other_architectures_were_defined", 50), ("definitions_created_up_front_and_written_one_after_the_other", 100)):
         if acc.counters[c] < n:
             why.append(f"{c}: only {acc.counters[c]}")
     h = acc.hists.get("c16_violating_kind", {})
